@@ -467,8 +467,15 @@ def _run_case(case):
                                pb.bounds.xu - 3.0, -3.0))
         xu = np.where(np.isfinite(pb.bounds.xu), pb.bounds.xu, xl + 3.0)
         worst = 0.0
-        for _ in range(8):
+        x_prev = None
+        for it in range(8):
             x = xl + rng.random(pb.n) * (xu - xl)
+            if it % 2 == 1 and x_prev is not None:
+                # a point that agrees with the previous one to 8-9 digits:
+                # its violation is its own (nothing may be reused)
+                x = np.clip(x_prev + (xu - xl) * 10.0 ** rng.uniform(-11, -8)
+                            * rng.choice([-1.0, 1.0], pb.n), xl, xu)
+            x_prev = x
             from vlib import oracles as _orc
             xf = _orc.user_of(rec, pb, x)
             got = internal_linear(pb.linear, x)
